@@ -142,6 +142,17 @@ CLAIMED = {
    note=COMMON_NOTE + "Cross-interpreter determinism of numpy/random/scipy and multiprocessing.Pool are runtime behaviour: validated by subprocess runs, never counted as discharged obligations.",
    technique="Lean 4 proof of the decision logic over facts regenerated from source; subprocess validation of the runtime part",
    design="5/C17"),
+ "C12": dict(
+   text="Lean theorems over a message-level transition system of the non-blocking protocol for ARBITRARY rank count R, sync frequency, target, slice lengths and every interleaving: some action is "
+        "enabled in every non-final reachable state (no_deadlock), when all ranks have returned no age-update or exit message is left and every helper consumed exactly one exit message "
+        "(clean_return), hence calls chain (next_call), at return R*target <= sum of island ages (ages_nonblocking), migration partners are symmetric (par_partner_symmetric). "
+        "Tie: TRACE VALIDATION -- the real ParallelArchipelago runs on a deterministic thread-based stand-in for mpi4py under random/adversarial/exhaustive schedules and every logged "
+        "communication event is replayed through the model's step function; oracle on the real runs (deadlock detector, mailboxes, ages, cross-rank agreement, NaN-aware best, migration "
+        "conservation). Termination under fair schedules is observed, not proved.",
+   note=COMMON_NOTE + "mpi4py is not installed: the MPI runtime is my stand-in (buffered, non-overtaking, instantly visible messages, collectives as rank-ordered folds). Liveness is validated only. "
+        "Known findings F10 (per-call mean age on later calls) and F16 (zero-generation helper) in known_findings.json. Blocking mode is oracle-checked (each island +n).",
+   technique="Lean 4 proof (inductive invariant of the protocol for all R and all interleavings) + trace validation of the implementation on an MPI stand-in",
+   design="5/C12"),
 }
 
 REASONS = {p: "check not built yet in this round (planned, see DESIGN.md section 11)" for p in PROPS}
